@@ -691,6 +691,10 @@ def main(tier, seed):
         for gate in (0, 1):
             for r in (rates_opts if tier == 'thorough' else rates_opts[:4]):
                 jobs.append(dict(fam='controls', v=dict(sizes=list(sizes), gate=gate, rates=r)))
+    # an array-valued parameter FOLLOWED by another one of the same non-default rate group
+    for sizes in [(3, 1), (2, 2)]:
+        for r in (['ir', 'ir'], ['tr', 'tr'], ['ar', 'ar'], ['ir', 'ir', 'ir']):
+            jobs.append(dict(fam='controls', v=dict(sizes=list(sizes), gate=1 if len(r) == 3 else 0, rates=r)))
     kinds = ['rate', 'rate-mixed', 'nan', 'nan-arith', 'str', 'none', 'filter-rate', 'nan-unit']
     jobs += [dict(fam='invalid', kind=k) for k in kinds]
     jobs += [dict(fam='iobus'), dict(fam='shared')]
